@@ -14,6 +14,9 @@ def run(ctx):
     ctx.samples = tc.sample(progs, 2) + tc.sample(rnd, 1)
     ctx.distinct = tc.distinct(programs)
     tc.judge(ctx, programs, "c05")
+    # the seeded programs again on the build with integer-overflow checks and debug assertions
+    vlib.run_and_judge(ctx, rnd, "Trace_Tables.cfg", "Trace_Tables.tla", "c05chk", profile="checked")
+    ctx.extra["builds"] = ["release", "checked (overflow checks + debug assertions) for the seeded programs"]
     return vlib.finish(ctx, rule="all interleavings of handle-returning and other adds of fixed and variable size over PPTT, "
                        "RHCT, RIMT, VIOT to depth 4 with every later use of every earlier handle (MC_Tables), plus random "
                        "topologies; predicate on every intermediate image: returned handle = offset of that node found by the "
